@@ -1,4 +1,5 @@
 '''C16 / C17 on the full real stack: raw JSON requests through real ElectrumX sessions.'''
+from harness.crashio import CTL
 import hashlib
 import json
 import random
@@ -75,8 +76,38 @@ class RequestRun(FullStack):
         x = self.clients[name].session
         v = self.clients['v']
         return {'sub': (sorted(x.hashX_subs.items()), sorted((k, str(s)) for k, s in x.mempool_statuses.items()), x.subscribe_headers),
-                'cache': (sorted(map(bytes, sm._history_cache.keys())), sorted(sm._tx_hashes_cache.keys()), sorted(sm._merkle_cache.keys())),
+                'cache': {'hist': {bytes(k): repr(val) for k, val in sm._history_cache.items()},
+                          'txh': {k: [bytes(h) for h in val] for k, val in sm._tx_hashes_cache.items()},
+                          'mc': {k: id(val) for k, val in sm._merkle_cache.items()}},
                 'victim': (len(v.transport.out), sorted(v.session.hashX_subs.items()), sorted(v.session.mempool_statuses))}
+
+    def cache_altered(self, before, after):
+        '''A cache is altered when an entry it held is gone or different, or when a new entry is not what an uncached
+        read gives (a correct entry left behind by a refused request changes no answer anybody will ever get).'''
+        for name in ('hist', 'txh', 'mc'):
+            for k, val in before[name].items():
+                if k not in after[name] or after[name][k] != val:
+                    return 1
+        limit = self.env.max_send // 99
+        saved = CTL.enabled
+        CTL.enabled = False
+        try:
+            for k in set(after['hist']) - set(before['hist']):
+                if after['hist'][k] != repr(self.run_coro(self.db.limited_history(k, limit=limit))):
+                    return 1
+            for k in set(after['txh']) - set(before['txh']):
+                try:
+                    true = [bytes(h) for h in self.db.fs_tx_hashes_at_blockheight(k)]
+                except Exception:      # pylint:disable=broad-except
+                    return 1
+                if after['txh'][k] != true:
+                    return 1
+            for k in set(after['mc']) - set(before['mc']):
+                if not isinstance(k, int) or not 0 <= k <= self.db.state.height:
+                    return 1
+        finally:
+            CTL.enabled = saved
+        return 0
 
     def attacker(self):
         c = self.clients.get('x')
@@ -152,7 +183,7 @@ class RequestRun(FullStack):
                 self.records.append({'kind': 'request', 'm': req['m'], 'v': req['v'], 'malformed': req['malformed'],
                                      'hash_malformed': req['hashbad'], 'outcome': outcome,
                                      'sub_changed': int(before['sub'] != after['sub']),
-                                     'cache_changed': int(before['cache'] != after['cache']),
+                                     'cache_changed': self.cache_altered(before['cache'], after['cache']),
                                      'victim_changed': int(before['victim'] != after['victim']),
                                      'texts': [t[:40] for t in texts], 'reply': str(reply)[:160]})
         # the victim is still told the truth afterwards
